@@ -128,6 +128,7 @@ def build():
     resolve = reg.add(Contract(
         P + "parser.py::DefaultOperatorResolver.resolve", params={"self": SELF, "token": "Token"},
         returns=TSeq(PAIR), yields=PAIR, spec_env=SPEC_ENV, axioms=[string_axioms],
+        truthy_of={"Match": "always"},          # A-lib(re): "Match objects always have a boolean value of True"
         globals={"re": PyConst("re"), "re.search": n_re_search, "super": n_super},
         lets={"T": "self.operator_table", "t0": "token.token"},
         raises={"FormulaSyntaxError": None},
